@@ -28,6 +28,7 @@ import pandapipes as pp
 import pandapower as ppw
 from pandapipes.multinet.create_multinet import create_empty_multinet, add_net_to_multinet
 from pandapipes.multinet.control.controller.multinet_control import (
+    coupled_p2g_const_control, coupled_g2p_const_control,
     P2GControlMultiEnergy, G2PControlMultiEnergy, GasToGasConversion)
 from pandapipes.multinet.control.run_control_multinet import run_control as run_control_mn
 from pandapipes.multinet.timeseries.run_time_series_multinet import run_timeseries as run_timeseries_mn
@@ -69,7 +70,17 @@ def _gen_power(rng):
                       "scaling": rng.choice([1.0, 1.0, 2.0]), "index": k + rng.choice([0, 0, 5])})
     seen = set()
     sgens = [s for s in sgens if not (s["index"] in seen or seen.add(s["index"]))]
-    return {"buses": nb, "lines": lines, "loads": loads, "sgens": sgens}
+    gens = []
+    if rng.random() < 0.5:
+        for k in range(rng.randint(1, 2)):
+            gens.append({"bus": rng.randrange(1, nb), "p_mw": round(rng.uniform(0.01, 0.3), 4), "vm_pu": 1.0,
+                         "scaling": rng.choice([1.0, 1.0, 2.0]), "index": k + rng.choice([0, 0, 5])})
+        seen = set()
+        gens = [g for g in gens if not (g["index"] in seen or seen.add(g["index"]))]
+        # one voltage-controlled generator per bus at most
+        seenb = set()
+        gens = [g for g in gens if not (g["bus"] in seenb or seenb.add(g["bus"]))]
+    return {"buses": nb, "lines": lines, "loads": loads, "sgens": sgens, "gens": gens}
 
 
 def build_power(prog):
@@ -83,6 +94,8 @@ def build_power(prog):
         ppw.create_load(net, l["bus"], p_mw=l["p_mw"], q_mvar=l["q_mvar"], scaling=l["scaling"], index=l["index"])
     for s in prog["sgens"]:
         ppw.create_sgen(net, s["bus"], p_mw=s["p_mw"], q_mvar=s["q_mvar"], scaling=s["scaling"], index=s["index"])
+    for g in prog.get("gens", []):
+        ppw.create_gen(net, g["bus"], p_mw=g["p_mw"], vm_pu=g["vm_pu"], scaling=g["scaling"], index=g["index"])
     return net
 
 
@@ -123,6 +136,7 @@ def generate(seed, tier, prop):
         gas2, g2meta = _gen_gas(rng, rng.choice(["hydrogen", "methane", "hgas"]))
         nets["gas2"] = gas2
     free = {"load": [l["index"] for l in power["loads"]], "sgen": [s["index"] for s in power["sgens"]],
+            "gen": [g["index"] for g in power.get("gens", [])],
             "gas.source": list(gmeta["sources"]), "gas.sink": list(gmeta["sinks"])}
     if g2meta:
         free["gas2.source"] = list(g2meta["sources"])
@@ -145,8 +159,9 @@ def generate(seed, tier, prop):
             c.update(power_idx=a, gas_idx=b, gas_net=gn)
         elif kind in ("g2p", "g2p_led"):
             gn = rng.choice(["gas"] + (["gas2"] if g2meta else []))
-            a, b = take("sgen", nvec), take(gn + ".sink", nvec)
-            c.update(power_idx=a, gas_idx=b, gas_net=gn)
+            ptype = "gen" if (free["gen"] and rng.random() < 0.4) else "sgen"
+            a, b = take(ptype, nvec), take(gn + ".sink", nvec)
+            c.update(power_idx=a, gas_idx=b, gas_net=gn, ptype=ptype)
         else:
             frm, to = rng.choice([("gas", "gas2"), ("gas2", "gas")])
             a, b = take(frm + ".sink", nvec), take(to + ".source", nvec)
@@ -190,6 +205,49 @@ def generate(seed, tier, prop):
                 t_bad = rng.randrange(T - 1) if late else rng.randrange(T)
                 profiles[nm][t_bad] = round(base * (1e4 if el == "sink" else 5e3), 6)
                 bad.append(t_bad)
+    if kind == "timeseries":
+        # a coupling set up through the helper functions: profile controller on the coupling's source element(s)
+        # plus the coupling controller, both in one level
+        profiled = {(x["net"], x["element"], i) for x in const for i in x["element_index"]}
+        for ci, c in enumerate(couplings):
+            if c["type"] == "g2g" or not isinstance(c["level"], int) or rng.random() > 0.4:
+                continue
+            if c["type"] == "p2g":
+                src = ("power", "load", "p_mw", c["power_idx"])
+            elif c["type"] == "g2p":
+                src = (c["gas_net"], "sink", "mdot_kg_per_s", c["gas_idx"])
+            else:
+                src = ("power", c.get("ptype", "sgen"), "p_mw", c["power_idx"])
+            if any((src[0], src[1], i) in profiled for i in src[3]):
+                continue
+            # (a source element that another coupling writes would be overwritten by the profile: skip)
+            targets = set()
+            for c2 in couplings:
+                if c2["type"] == "p2g":
+                    targets |= {(c2["gas_net"], "source", i) for i in c2["gas_idx"]}
+                elif c2["type"] == "g2p":
+                    targets |= {("power", c2.get("ptype", "sgen"), i) for i in c2["power_idx"]}
+                elif c2["type"] == "g2p_led":
+                    targets |= {(c2["gas_net"], "sink", i) for i in c2["gas_idx"]}
+                else:
+                    targets |= {(c2["to_net"], "source", i) for i in c2["idx_to"]}
+            if any((src[0], src[1], i) in targets for i in src[3]):
+                continue
+            names = []
+            for i in src[3]:
+                nm = "h%d_%d" % (ci, i)
+                base = [o for o in ([{"index": l["index"], "v": l["p_mw"]} for l in power["loads"]] if src[1] == "load" else
+                                    [{"index": g["index"], "v": g["p_mw"]} for g in power.get(src[1] + "s", [])] if src[0] == "power" else
+                                    [{"index": o_["kw"]["index"], "v": o_["kw"]["mdot_kg_per_s"]} for o_ in nets[src[0]]["ops"] if o_["fn"] == "create_sink"])
+                        if o["index"] == i]
+                b0 = base[0]["v"] if base else 0.1
+                profiles[nm] = [round(b0 * rng.uniform(0.5, 1.5), 8) for _ in range(T)]
+                names.append(nm)
+            c["helper"] = {"profile": names}
+            const.append({"net": src[0], "element": src[1], "variable": src[2], "element_index": list(src[3]), "profile": names,
+                          "scale_factor": 1.0, "order": c["order"] - 1, "level": c["level"], "initial_run": c["initial_run"],
+                          "via_helper": ci})
+            profiled |= {(src[0], src[1], i) for i in src[3]}
     steps = list(range(T))
     if kind == "timeseries" and rng.random() < 0.3:
         steps = sorted(rng.sample(steps, rng.randint(2, T)))
@@ -251,6 +309,9 @@ class Model:
         for s in pw["sgens"]:
             self.v[("power", "sgen", s["index"], "p_mw")] = s["p_mw"]
             self.v[("power", "sgen", s["index"], "scaling")] = s["scaling"]
+        for g in pw.get("gens", []):
+            self.v[("power", "gen", g["index"], "p_mw")] = g["p_mw"]
+            self.v[("power", "gen", g["index"], "scaling")] = g["scaling"]
         for nn in ("gas", "gas2"):
             if nn not in trace["nets"]:
                 continue
@@ -281,18 +342,20 @@ class Model:
                     self.written.append((c["gas_net"], "source", b, "mdot_kg_per_s", ci))
             elif c["type"] == "g2p":
                 k = self.hhv[c["gas_net"]] * 3600 / 1e3
+                pt = c.get("ptype", "sgen")
                 for a, b in zip(c["power_idx"], c["gas_idx"]):
-                    if ("power", "sgen", a, "p_mw") not in self.v or (c["gas_net"], "sink", b, "mdot_kg_per_s") not in self.v:
+                    if ("power", pt, a, "p_mw") not in self.v or (c["gas_net"], "sink", b, "mdot_kg_per_s") not in self.v:
                         continue
                     val = self.v[(c["gas_net"], "sink", b, "mdot_kg_per_s")] * self.v[(c["gas_net"], "sink", b, "scaling")] * k * c["eff"]
-                    self.v[("power", "sgen", a, "p_mw")] = val
-                    self.written.append(("power", "sgen", a, "p_mw", ci))
+                    self.v[("power", pt, a, "p_mw")] = val
+                    self.written.append(("power", pt, a, "p_mw", ci))
             elif c["type"] == "g2p_led":
                 k = self.hhv[c["gas_net"]] * 3600 / 1e3
+                pt = c.get("ptype", "sgen")
                 for a, b in zip(c["power_idx"], c["gas_idx"]):
-                    if ("power", "sgen", a, "p_mw") not in self.v or (c["gas_net"], "sink", b, "mdot_kg_per_s") not in self.v:
+                    if ("power", pt, a, "p_mw") not in self.v or (c["gas_net"], "sink", b, "mdot_kg_per_s") not in self.v:
                         continue
-                    val = self.v[("power", "sgen", a, "p_mw")] * self.v[("power", "sgen", a, "scaling")] / (k * c["eff"])
+                    val = self.v[("power", pt, a, "p_mw")] * self.v[("power", pt, a, "scaling")] / (k * c["eff"])
                     self.v[(c["gas_net"], "sink", b, "mdot_kg_per_s")] = val
                     self.written.append((c["gas_net"], "sink", b, "mdot_kg_per_s", ci))
             elif c["type"] == "g2g":
@@ -334,17 +397,28 @@ def build_world(trace, order_override=None):
         # junctions, which the numba kernels index without bounds check -> skip it)
         if c["type"] == "p2g" and not (_exists("power", "load", c["power_idx"]) and _exists(c["gas_net"], "source", c["gas_idx"])):
             continue
-        if c["type"] in ("g2p", "g2p_led") and not (_exists("power", "sgen", c["power_idx"]) and _exists(c["gas_net"], "sink", c["gas_idx"])):
+        if c["type"] in ("g2p", "g2p_led") and not (_exists("power", c.get("ptype", "sgen"), c["power_idx"]) and _exists(c["gas_net"], "sink", c["gas_idx"])):
             continue
         if c["type"] == "g2g" and not (_exists(c["from_net"], "sink", c["idx_from"]) and _exists(c["to_net"], "source", c["idx_to"])):
             continue
         try:
-            if c["type"] == "p2g":
+            hp = c.get("helper")
+            if hp and ds is not None and all(p_ in ds.df.columns for p_ in hp["profile"]) and isinstance(c["level"], int):
+                # the pair (profile controller on the coupling's source, coupling controller) set up by the helper
+                prof = hp["profile"] if (c.get("vector") or len(hp["profile"]) > 1) else hp["profile"][0]
+                hkw = dict(profile_name=prof, data_source=ds, scale_factor=1.0, order=(od - 1, od), level=c["level"],
+                           initial_run=c["initial_run"], name_power_net="power", name_gas_net=c["gas_net"])
+                if c["type"] == "p2g":
+                    coupled_p2g_const_control(mn, _idx(c, "power_idx"), _idx(c, "gas_idx"), c["eff"], **hkw)
+                else:
+                    coupled_g2p_const_control(mn, _idx(c, "power_idx"), _idx(c, "gas_idx"), c["eff"],
+                                              element_type_power=c.get("ptype", "sgen"), power_led=c["type"] == "g2p_led", **hkw)
+            elif c["type"] == "p2g":
                 P2GControlMultiEnergy(mn, _idx(c, "power_idx"), _idx(c, "gas_idx"), c["eff"], name_power_net="power",
                                       name_gas_net=c["gas_net"], **common)
             elif c["type"] in ("g2p", "g2p_led"):
                 G2PControlMultiEnergy(mn, _idx(c, "power_idx"), _idx(c, "gas_idx"), c["eff"], name_power_net="power",
-                                      name_gas_net=c["gas_net"], element_type_power="sgen",
+                                      name_gas_net=c["gas_net"], element_type_power=c.get("ptype", "sgen"),
                                       calc_gas_from_power=c["type"] == "g2p_led", **common)
             else:
                 GasToGasConversion(mn, _idx(c, "idx_from"), _idx(c, "idx_to"), c["eff"], name_gas_net_from=c["from_net"],
@@ -360,7 +434,7 @@ def build_world(trace, order_override=None):
             ConstControl(n, element=el, variable=var, element_index=[n[el].index[0]], data_source=None,
                          order=99, level=9, initial_run=False)   # after every coupling level
     for c in trace["const"]:
-        if c["net"] not in nets or ds is None:
+        if c["net"] not in nets or ds is None or c.get("via_helper") is not None:
             continue
         n = nets[c["net"]]
         if c["element"] not in n or any(i not in n[c["element"]].index for i in c["element_index"]):
@@ -421,7 +495,7 @@ def _compare_member(res, nets, twins, site):
         if tout != "ok" or nn not in nets:
             continue
         if nn == "power":
-            for t in ("res_bus", "res_line", "res_load", "res_sgen", "res_ext_grid"):
+            for t in ("res_bus", "res_line", "res_load", "res_sgen", "res_gen", "res_ext_grid"):
                 a, b = nets[nn][t], tw[t]
                 if a.shape != b.shape or not np.allclose(a.values.astype(float), b.values.astype(float), rtol=1e-9, atol=1e-12, equal_nan=True):
                     res.violate("C20", "C20/member-not-equal-twin:power.%s@%s" % (t, site), "")
@@ -435,7 +509,7 @@ def _state_digest(nets):
     from .snap import df_columns_digest
     out = {}
     for nn in sorted(nets):
-        for t in ("source", "sink", "load", "sgen"):
+        for t in ("source", "sink", "load", "sgen", "gen"):
             if t in nets[nn]:
                 out["%s.%s" % (nn, t)] = df_columns_digest(nets[nn][t])
         for t in sorted(k for k in nets[nn].keys() if isinstance(k, str) and k.startswith("res_") and isinstance(nets[nn][k], pd.DataFrame)):
@@ -657,7 +731,7 @@ def _independent(cps):
     for c in cps:
         els = set()
         if "power_idx" in c:
-            els |= {("power", "load" if c["type"] == "p2g" else "sgen", i) for i in c["power_idx"]}
+            els |= {("power", "load" if c["type"] == "p2g" else c.get("ptype", "sgen"), i) for i in c["power_idx"]}
             els |= {(c["gas_net"], "source" if c["type"] == "p2g" else "sink", i) for i in c["gas_idx"]}
         else:
             els |= {(c["from_net"], "sink", i) for i in c["idx_from"]} | {(c["to_net"], "source", i) for i in c["idx_to"]}
@@ -691,7 +765,7 @@ def _round_trip(res, trace, mn, nets, model, kw, solver):
         res.count("probe:round-trip-second-run-diverged")
         return
     p_in = model.v[("power", "load", load, "p_mw")] * model.v[("power", "load", load, "scaling")]
-    got = float(nets["power"].sgen.at[sgen, "p_mw"])
+    got = float(nets["power"][b.get("ptype", "sgen")].at[sgen, "p_mw"])
     want = p_in * a["eff"] * b["eff"]
     res.oracle_checks += 1
     res.count("probe:round-trip-checked")
